@@ -78,9 +78,13 @@ def load_known_findings():
         return json.load(f)["findings"]
 
 
+def _sigs(k):
+    return k.get("signatures") or [k["signature"]]
+
+
 def open_signatures(prop):
-    return {k["signature"]: k for k in load_known_findings()
-            if k["property"] == prop and k["status"] == "open"}
+    """signature -> finding record, for the open findings of one property (a finding may list several signatures)"""
+    return {sg: k for k in load_known_findings() if k["property"] == prop and k["status"] == "open" for sg in _sigs(k)}
 
 
 # --------------------------------------------------------------------------
@@ -108,6 +112,9 @@ class Ctx:
         this property suppress; anything else is a violation."""
         if signature in self._open:
             self.known_hits[signature] += 1
+            return
+        if os.environ.get("VERIF_COLLECT_SIGNATURES"):       # development aid: list every unlisted signature in one run
+            self.events["UNLISTED " + signature] += 1
             return
         raise Violation("%s %s (signature not listed as an open known finding)" % (signature, detail))
 
@@ -307,7 +314,11 @@ def run_property(prop, tier, seed, only=None, n_override=None, procs=None):
 
     # ---- known findings: re-confirm each open one and announce it -----------
     kf_state = []
-    for sig, k in sorted(open_signatures(prop).items()):
+    seen_kf = set()
+    for sig, k in sorted(open_signatures(prop).items(), key=lambda kv: kv[1]["id"]):
+        if k["id"] in seen_kf:
+            continue
+        seen_kf.add(k["id"])
         ex = k.get("example")
         status = "not re-executed (no example)"
         if ex is not None:
@@ -319,7 +330,7 @@ def run_property(prop, tier, seed, only=None, n_override=None, procs=None):
             try:
                 warnings.simplefilter("ignore")
                 sub.pred(jsonio.dec(ex["case"]), ctx)
-                status = "reproduced" if ctx.known_hits.get(sig) else "example no longer triggers it"
+                status = "reproduced" if any(ctx.known_hits.get(x) for x in _sigs(k)) else "example no longer triggers it"
             except Violation as v:
                 status = "example now fails differently: %s" % v
                 path = _write_replay(prop, sub.name, {"message": str(v), "case": ex["case"]}, seed, tier)
@@ -327,7 +338,7 @@ def run_property(prop, tier, seed, only=None, n_override=None, procs=None):
             except Exception:
                 errors.append("known finding %s example crashed the harness:\n%s" % (k["id"], traceback.format_exc()))
                 continue
-        kf_state.append({"id": k["id"], "signature": sig, "status": status, "what": k["what"], "hits": 0})
+        kf_state.append({"id": k["id"], "signature": sig, "signatures": _sigs(k), "status": status, "what": k["what"], "hits": 0})
         if status == "reproduced":
             print("KNOWN-FINDING: property=%s %s [%s] %s" % (prop, k["id"], k["where"], k["what"]))
         else:
@@ -414,7 +425,7 @@ def run_property(prop, tier, seed, only=None, n_override=None, procs=None):
         for smp in a["samples"][:2]:
             samples.append({"subprop": name, "case": smp})
     for ks in kf_state:
-        ks["hits"] = sum(a["known"].get(ks["signature"], 0) for a in per_sub.values())
+        ks["hits"] = sum(a["known"].get(x, 0) for a in per_sub.values() for x in ks["signatures"])
     table = {}
     for name, a in per_sub.items():
         table[name] = {"evaluations": a["evaluations"], "generated": a["generated"], "enumerated": a["enumerated"],
